@@ -14,7 +14,7 @@ import json, os, shutil, subprocess, sys, tempfile, time, glob, re
 VERIF = os.path.dirname(os.path.dirname(os.path.abspath(__file__)))
 REPO = os.environ.get("VERIF_REPO", "/repo")
 GO = "go1.26.8"
-NCPU = os.cpu_count() or 4
+NCPU = int(os.environ.get("VERIF_WORKERS") or (os.cpu_count() or 4))
 
 ENV = dict(os.environ, GOFLAGS="-mod=mod", GOPROXY="off", GOSUMDB="off", GOTOOLCHAIN="local", CGO_ENABLED="1")
 
